@@ -89,11 +89,12 @@ def observe_fit(cfg, X, y, script_seed, fast_rng=None):
                 normals = [r.normal() for _ in range(4 * dim + 8)]
                 a = max(dim, 1) / 4.0
                 gammas = [max(1e-300, -math.log(1 - r.u01()) * a * r.uniform(0.3, 2.0)) for _ in range(6)]
-                scripts.append({"normals": normals, "gammas": gammas})
                 if cfg.get("rs"):     # the seeded (`except AttributeError`: RandomState) branch of Vector.randomise
                     c.obj._rng = c03.ScriptedRS2(normals=normals, gammas=gammas)
                 else:
                     c.obj._rng = seams.ScriptedSystemRandom(normals=normals, gammas=gammas)
+                # keep the generator of THIS call (a mechanism object may serve several calls)
+                scripts.append({"normals": normals, "gammas": gammas, "rng": c.obj._rng})
         return seams.interpose.REAL
 
     so.fmin_l_bfgs_b = wrap
@@ -463,7 +464,7 @@ def model_lines(cfg, X, calls, opts, scripts, obs):
             L.append(f"fit {F(cfg['eps'])} {F(C_nom)} {F(cfg['norm'])} 2 {d} {n} {1 if cfg['intercept'] else 0}")
         else:
             L.append(f"fit {F(cfg['eps'])} {F(cfg['C'])} {F(cfg['norm'])} {cfg['classes']} {d} {n} {1 if cfg['intercept'] else 0}")
-        glog = [e for e in c.obj._rng.log if e[0] == "gammavariate"]
+        glog = [e for e in sc["rng"].log if e[0] == "gammavariate"]
         scale = float(glog[0][2]) if glog else float("nan")
         L.append(f"vec {F(scale)} {dim} " + " ".join(F(v) for v in sc["normals"][:4 * dim] + sc["gammas"][:4]))
         L.append(f"pert {n} {F(ex['delta'])} {dim} " + " ".join(F(v) for v in list(ex["b"]) + list(ex["w2"])))
@@ -499,10 +500,10 @@ def compare(ctx, cfg, dseed, X, calls, opts, scripts, obs, outs, rows):
         for a, b_ in zip(model_args, impl_args):
             if not close(a, b_, ptol(cfg) if f32 else 1e-13):
                 return dis(f"arguments reaching Vector / the optimiser (problem {i}): eps, dim, alpha, c, s, n, l2", model_args, impl_args)
-        glog = [e for e in c.obj._rng.log if e[0] == "gammavariate"]
-        if len(glog) != 4 or c.obj._rng.n_normal != 4 * dim:
+        glog = [e for e in sc["rng"].log if e[0] == "gammavariate"]
+        if len(glog) != 4 or sc["rng"].n_normal != 4 * dim:
             return dis("random draws consumed by Vector.randomise", {"normals": 4 * dim, "gammas": 4},
-                       {"normals": c.obj._rng.n_normal, "gammas": len(glog)})
+                       {"normals": sc["rng"].n_normal, "gammas": len(glog)})
         if ex.get("boundary") or f32:
             # model (Lean log) and code (numpy log) may take different branches at the branch point; with a parameter in
             # single precision the code's alpha / s carry single-precision rounding the double-precision model has not
@@ -652,6 +653,16 @@ FIXED = [
     {"eps": branch_point(2.0, 1.0, True) + 5e-9, "C": 2.0, "norm": 1.0, "d": 2, "n": 30, "classes": 2, "intercept": True, "max_iter": 2},
     {"eps": 3 * (branch_point(4.0, 1.0, False) - 1e-8), "C": 4.0, "norm": 1.0, "d": 2, "n": 30, "classes": 3, "intercept": False,
      "max_iter": 2},
+    # parameter types: an integer-typed C is still C
+    {"eps": 1.0, "C": 1.0, "norm": 1.0, "d": 3, "n": 40, "classes": 2, "intercept": True, "max_iter": 3,
+     "types": {"C": "int", "eps": "int", "norm": "int", "tol": "float", "max_iter": "int"}},
+    {"eps": 2.0, "C": 2.0, "norm": 1.0, "d": 2, "n": 30, "classes": 3, "intercept": False, "max_iter": 3,
+     "types": {"C": "np.int64", "eps": "np.float64", "norm": "np.float32", "tol": "np.float32", "max_iter": "np.int64"}},
+    # the path entry point with several C
+    {"entry": "path", "Cs": [0.1, 100.0], "Cs_kind": "list", "C": 0.1, "eps": 1.0, "norm": 1.0, "d": 3, "n": 40, "classes": 2,
+     "intercept": True, "max_iter": 2},
+    {"entry": "path", "Cs": 3, "Cs_kind": "int", "C": 1.0, "eps": 0.5, "norm": 2.0, "d": 2, "n": 30, "classes": 2,
+     "intercept": False, "max_iter": 2, "check_input": True},
     # single-precision / integer / list input with rows above the norm
     {"eps": 1.0, "C": 1.0, "norm": 1.0, "d": 5, "n": 60, "classes": 2, "intercept": True, "max_iter": 3, "xkind": "f32"},
     {"eps": 1.0, "C": 1.0, "norm": 1.5, "d": 3, "n": 40, "classes": 3, "intercept": False, "max_iter": 3, "xkind": "int"},
@@ -695,6 +706,7 @@ def check(ctx):
     ctx.count("driver_lines", len(all_lines))
     # calibration alone over the whole parameter box (model vs reference rule vs implementation's gammavariate scale)
     calib_sweep(ctx)
+    vector_live(ctx)
     rs = ctx.fork("stats")
     stat_vector(ctx, rs, min(1000000, ctx.budget(20000, 1000000)))
     stat_fit(ctx, rs, min(40000, ctx.budget(1500, 20000)))
@@ -775,9 +787,62 @@ def calib_sweep(ctx):
             ctx.trace_ok()
 
 
+VEC_ATTR = {"eps": "epsilon", "fs": "function_sensitivity", "ds": "data_sensitivity", "alpha": "alpha", "d": "dimension", "n": "n"}
+
+
+def vector_live_case(lc):
+    """Vector(p1) → randomise → assign public attributes (on the object or a .copy()) → randomise on the same stream:
+    the release must be the one of a fresh Vector built with the current parameters (or the call must raise)."""
+    p1, p2, attrs = lc["p1"], lc["p2"], lc["attrs"]
+    script = {"normals": lc["normals"], "gammas": lc["gammas"], "rs": lc.get("rs")}
+    rng = c03.make_rng("vec", script)
+    m = c03.mk_mech("vec", p1, rng)
+    first = c03.released("vec", m, 0, p1)
+    tgt = m.copy() if lc["copy"] else m
+    for a in attrs:
+        setattr(tgt, VEC_ATTR[a], p2[a])
+    cur = dict(p1)
+    cur.update({a: p2[a] for a in attrs})
+    c03.rewind(rng)
+    try:
+        second = c03.released("vec", tgt, 0, cur)
+    except (ValueError, TypeError):
+        return None                      # refusing the re-parameterised object is the other acceptable behaviour
+    fresh = c03.released("vec", c03.mk_mech("vec", cur, c03.make_rng("vec", script)), 0, cur)
+    if second == fresh:
+        return None
+    return (f"Vector({p1}).randomise once, then {'on a .copy(): ' if lc['copy'] else ''}"
+            f"{', '.join(f'{VEC_ATTR[a]} = {p2[a]!r}' for a in attrs)}; the next randomise on the same stream adds b={second[1]}, "
+            f"Delta={second[2]!r}; a fresh Vector with the current parameters adds b={fresh[1]}, Delta={fresh[2]!r} "
+            f"(first release: b={first[1]}, Delta={first[2]!r})")
+
+
+def vector_live(ctx):
+    r = ctx.fork("vector-live")
+    for _ in range(ctx.budget(80, 800)):
+        def draw():
+            return {"eps": r.loguniform(1e-2, 20.0), "fs": r.choice([0.25, 0.25, 0.0, r.loguniform(1e-2, 2)]),
+                    "ds": r.choice([1.0, math.sqrt(2.0), r.loguniform(0.1, 10)]), "d": r.randint(1, 6),
+                    "alpha": r.choice([1.0, 0.01, 10.0, r.loguniform(1e-2, 1e2)]), "n": r.choice([1, 10, 137])}
+        p1, p2 = draw(), draw()
+        names = list(VEC_ATTR)
+        attrs = r.sample(names, r.randint(1, len(names)))
+        lc = {"p1": p1, "p2": {a: p2[a] for a in names}, "attrs": attrs, "copy": r.chance(0.4), "rs": r.chance(0.4),
+              "normals": [r.normal() for _ in range(24)],
+              "gammas": [max(1e-300, -math.log(1 - r.u01()) * r.uniform(0.2, 2.0)) for _ in range(4)]}
+        ctx.case(("vector-live", tuple(sorted(attrs)), lc["copy"], lc["rs"]))
+        bad = vector_live_case(lc)
+        if bad:
+            ctx.violation("C17:Vector:stale-calibration-after-assignment", bad, {"check": "vector-live", "live": lc})
+        else:
+            ctx.trace_ok()
+
+
 def replay(ctx, data):
     d = data["data"]
     chk = d.get("check")
+    if chk == "vector-live":
+        return vector_live_case(d["live"]) is not None
     if chk == "calib":
         bad, _, _, _ = calib_case(d["eps"], d["C"], d["s"], int(d["n"]), int(d["d"]))
         return bad is not None
@@ -792,6 +857,7 @@ def replay(ctx, data):
 def check_stats_only(ctx):
     ctx.fork("cfgs")
     ctx.fork("calib")
+    ctx.fork("vector-live")
     rs = ctx.fork("stats")
     stat_vector(ctx, rs, min(1000000, ctx.budget(20000, 1000000)))
     stat_fit(ctx, rs, min(40000, ctx.budget(1500, 20000)))
